@@ -191,6 +191,20 @@ def rand_operator(r, kind=None):
     return {"kind": "sum", "terms": terms, "simplify": r.random() < 0.5}
 
 
+def perturb(r, spec):
+    """A copy of an operator spec (or list of specs) whose coefficients differ by ~1e-7 relative: distinct values
+    that any tolerance-based notion of 'same term' (hash rounding, allclose) confuses with the originals."""
+    if isinstance(spec, list):
+        return [perturb(r, x) for x in spec]
+
+    def bump(c):
+        f = 1 + r.choice([-1, 1]) * r.uniform(1e-7, 6e-7)
+        if isinstance(c, dict):
+            return {"c": [c["c"][0] * f, c["c"][1] * f]}
+        return float(c) * f if c else c
+    return {**spec, "terms": [{**t, "c": bump(t["c"])} for t in spec["terms"]]}
+
+
 def rand_array(r, shape, complex_p=0.4, ints=False):
     n = int(np.prod(shape))
     if ints:
@@ -332,6 +346,8 @@ class World:
             if k < 0.45:
                 if recent and r.random() < 0.2:
                     kind, val = r.choice(recent)
+                    if kind in ("operator", "operator_set") and r.random() < 0.6:
+                        val = perturb(r, val)   # same Pauli strings, coefficients a few 1e-7 relative away
                 else:
                     kind = r.choice(kinds)
                     val = rand_value(r, kind)
@@ -348,7 +364,11 @@ class World:
             elif k < 0.86:
                 dk = [x for x in kinds if x in DICT_KINDS] or ["operator"]
                 kind = r.choice(dk)
-                s = {"op": "dict_roundtrip", "args": {"kind": kind, "value": rand_value(r, kind), "json": r.choice(["std", "rapid", "none"])}}
+                val = rand_value(r, kind)
+                prev = [v for k2, v in recent if k2 == "operator"]
+                if kind == "operator" and prev and r.random() < 0.3:
+                    val = perturb(r, r.choice(prev))
+                s = {"op": "dict_roundtrip", "args": {"kind": kind, "value": val, "json": r.choice(["std", "rapid", "none"])}}
             else:
                 s = {"op": "text_roundtrip", "args": {"value": rand_operator(r)}}
             steps.append(s)
